@@ -44,7 +44,40 @@ fn flip_some(s: &mut Src, v: &mut Leaf, allow_zero: bool) {
 
 pub fn gen_set(s: &mut Src, min: usize) -> GenSet {
     let base = gen_base(s);
-    let n = match s.weighted(&[1, 2, 4, 8, 6]) {
+    let size_class = s.weighted(&[2, 4, 8, 16, 12, 1]);
+    if size_class == 5 {
+        // a "staircase": two leaves that part only at bit 255 plus one leaf
+        // branching off the base's path at (almost) every other bit position.
+        // Random or prefix-biased sets have one-sided (collapsed) levels almost
+        // everywhere; here nearly every one of the 256 levels has a non-empty
+        // sibling, which is what makes proofs and trees as large as they can get
+        // (the longest honest proof is 256 + 255*33 + 2*33 = 8737 bytes).
+        let mut list: Vec<Leaf> = Vec::with_capacity(260);
+        list.push(base);
+        let mut deepest = base;
+        flip(&mut deepest, 255);
+        list.push(deepest);
+        let drops = match s.weighted(&[4, 3, 2]) {
+            0 => 0,
+            1 => s.range(1, 8),
+            _ => s.range(9, 200),
+        };
+        let mut dropped = [false; 255];
+        for _ in 0..drops {
+            dropped[s.below(255)] = true;
+        }
+        for (k, d) in dropped.iter().enumerate() {
+            if !*d {
+                list.push(prefix_sharing(s, &base, k));
+            }
+        }
+        if s.bool() {
+            permute(s, &mut list);
+        }
+        let set = sorted_set(&list);
+        return GenSet { base, list, set };
+    }
+    let n = match size_class {
         0 => 0,
         1 => 1,
         2 => 2,
